@@ -42,7 +42,7 @@ LEVEL_NOTE = "Trusted: simkit scheduler / SQLite seam, transition log wrappers, 
 MINIMIZE = "schedule"
 RULE = (
     "one run = (mode in TASK/ARGUMENTS/KEYS) x (key arguments) x (reroute option) x 3-7 submissions over paths "
-    "{call, par, batch, trigger, retry} with keys from a 2x2 domain x (1-3 runners, 1-2 slots) under one seeded schedule. "
+    "{call, par, batch, trigger, retry} with keys from a 2x2 domain x (1-3 runners, 1-2 slots) under one seeded schedule; in 30 % of the runs an operator thread purges finished invocations (auto_purge, 36 ms horizon) meanwhile. "
     "Non-trivial = at least two same-key invocations were submitted and at least one invocation was blocked by concurrency "
     "control or two same-key invocations reached RUNNING; distinct = distinct hash of context-switch sites."
 )
